@@ -52,6 +52,14 @@ impl Prop for PXSem {
         if !script.is_empty() {
             o.script = Some(script);
         }
+        if input.get("t").and_then(|b| b.as_bool()).unwrap_or(false) {
+            o.opts.push("-t".into());
+        }
+        let procs = input.get("P").and_then(|p| p.as_u64()).unwrap_or(0);
+        if procs > 0 {
+            o.opts.push("-P".into());
+            o.opts.push(procs.to_string());
+        }
         o.arg_file = input.get("afile").and_then(|b| b.as_bool()).unwrap_or(false);
         o.no_cmd = input.get("echo").and_then(|b| b.as_bool()).unwrap_or(false);
         let r = run_xargs(&self.sb, &o);
@@ -59,7 +67,9 @@ impl Prop for PXSem {
             return json!({"panic": true, "exit": r.exit});
         }
         json!({"argvs": r.execs.iter().map(|e| Value::Array(e.iter().map(|a| bytes_to_json(a)).collect())).collect::<Vec<_>>(), "exit": r.exit,
-               "stdout": bytes_to_json(&r.stdout)})
+               "stdout": bytes_to_json(&r.stdout),
+               // lines of the form "COMMAND" "ARG".. on standard error: the command lines announced by -t
+               "tlines": r.stderr.split(|b| *b == b'\n').filter(|l| l.first() == Some(&b'"')).count()})
     }
 
     fn gen(&mut self, rng: &mut Rng, idx: usize, tier: &str) -> Value {
@@ -103,7 +113,8 @@ impl Prop for PXSem {
             }
         }
         let mut v = json!({"stdin": bytes_to_json(&stdin), "delim": delim, "n": n, "L": l, "s": s, "x": rng.chance(1, 5), "r": rng.chance(1, 4),
-               "init": init, "cmdlen": cmdlen, "script": script, "afile": rng.chance(1, 4), "echo": false});
+               "init": init, "cmdlen": cmdlen, "script": script, "afile": rng.chance(1, 4), "echo": false,
+               "t": rng.chance(1, 4), "P": if rng.chance(1, 4) { 1 + rng.below(4) } else { 0 }});
         if rng.chance(1, 6) {
             // no command: xargs echoes (plain ASCII input, no -s, no initial arguments, nothing to fail)
             let ascii: Vec<u8> = stdin.iter().map(|b| if *b >= 128 { b'z' } else { *b }).collect();
